@@ -347,6 +347,8 @@ class SimPeer:
         self.started_at = None
         self.popen_calls = 0
         self.urlopen_calls = 0
+        self.submit_attempts = 0        # non-probe requests to the LT server
+        self.last_attempt_failed = False
 
     # ---- answer for one text submission (either transport)
     def answer(self, text, language, norm):
@@ -444,6 +446,9 @@ class SimPeer:
             return self.textgears(url, fields)
         is_local = 'localhost' in url
         if is_local and not self.http_up():
+            if not (fields.get('text') == ' '
+                    and set(fields) == {'text', 'language'}):
+                self.last_attempt_failed = True     # a real request, refused
             w.fire('http_refused')
             w.ev('urlopen', url=url, res='refused', t=w.clock.now)
             raise urllib.error.URLError('Connection refused (simulated)')
@@ -461,6 +466,22 @@ class SimPeer:
             # availability probe of start_local_lt_server()
             w.ev('urlopen', url=url, res='probe-ok', t=w.clock.now)
             return _Reply(b'{"matches":[]}')
+        # transient failure of a request to a server that is up (message loss /
+        # 503): planned by attempt number, never twice in a row
+        idx = self.submit_attempts
+        self.submit_attempts += 1
+        if idx in self.http.get('fail_attempts', []) and \
+                not self.last_attempt_failed:
+            self.last_attempt_failed = True
+            kind = self.http.get('fail_kind', 'reset')
+            w.fire('http_transient_' + kind)
+            w.ev('urlopen', url=url, res='transient-' + kind, attempt=idx,
+                 t=w.clock.now)
+            if kind == '503':
+                raise urllib.error.HTTPError(url, 503, 'Service Unavailable',
+                                             {}, None)
+            raise urllib.error.URLError('Connection reset by peer (simulated)')
+        self.last_attempt_failed = False
         norm = {k: v for k, v in fields.items() if k != 'text'}
         norm['url'] = url
         w.ev('submit', transport='http', url=url, fields=norm,
